@@ -5,6 +5,11 @@ V = os.path.dirname(os.path.dirname(os.path.abspath(__file__)))
 props = [json.loads(l) for l in open(os.path.join(V, "properties.jsonl"))]
 
 CLAIMS = {
+ "C11": dict(
+   text="Lean 4 theorems over the model of do_command_substitution: C11_find (in pre$(cmd)post the greedy search finds exactly cmd), C11_splice_literal (for EVERY output text - $1, ${x}, $name, $$, backslashes, braces, regex specials - the word becomes pre ++ output ++ post; nothing in the output is interpreted by the splice), C11_backquote_match, C11_rejected_is_empty (an inner command that cannot be planned is replaced by nothing and the loop goes on - no hang). Five open finding classes are kept visible (both-side trim, output rescanned, inner text pre-expanded, text after a word-initial backquote substitution, unquoted output re-read). Tied to /repo by in-process plan streams with scripted outputs (39 outputs x 2 spellings x 4 positions x 2 quotings), the substitution pass on random token lists incl. rejected inner commands, and the real binary (printf outputs; a counting helper for run-exactly-once).",
+   note="Trusted: Lean kernel; hand-written model; running the inner command is an oracle keyed by the planned argv (scripted in-process, real processes in the binary stream); exactly-once is checked at process level only; stderr/state isolation of the inner command is not modelled.",
+   technique="Lean 4 proof (list lemmas over the greedy search and the splice) + model/implementation correspondence check",
+   design="DESIGN.md §6 C11"),
  "C16": dict(
    text="The entry points differ in one step: the script path (script file, function body, sourced file) passes each line through scripting::expand_args = tokens_to_line . expand_args_in_tokens . parse_line before run_command_line, -c does not. Lean 4 theorem C16_rerender_id: for every command of the C01 domain (plain word + single/double-quoted arguments of any content the style can express) and every positional-parameter list, the script path reproduces the line character for character, hence the same plans (C16_same_plan). Unquoted backslash escapes are refuted by kernel-checked witnesses (KF-C16-unquoted-escape). Tied to /repo by in-process streams on expand_args / expand_args_for_single_token / is_args_in_token and by running generated lines through four entry points of the real binary, compared pairwise with -c on argv records, created files and status.",
    note="Trusted: Lean kernel; hand-written model; the interactive-prompt entry (trim_multiline_prompts, !! expansion) is not yet compared (needs the pty driver); lines with positional parameters are C15's business; a function call's status is excluded from the comparison (C15 finding).",
